@@ -19,7 +19,7 @@ CHECKS = {
    technique="runtime monitoring: reference log-record model over generated stderr/stdout byte streams, race detector on"),
  "C17": dict(
    category="exploration",
-   text="Runtime monitor: for 96 configuration x 6 ambient-environment combinations per launch method, plus user Cmd.Env entries that collide with the control variables or are a copy of the host's whole environment, the environment handed to a custom runner and the environment actually received by a real child (plus its stdin identity) are captured and compared, variable by variable, with what the client configuration determines; end-to-end cases launch a real serving plugin from a host that carries PLUGIN_* variables and require the configured mode to work.",
+   text="Runtime monitor: for 96 configuration x 6 ambient-environment combinations per launch method, plus user Cmd.Env entries that collide with the control variables or are a copy of the host's whole environment, the environment handed to a custom runner and the environment actually received by a real child (plus its stdin identity) are captured and compared, variable by variable, with what the client configuration determines; rounds with two clients built from one ClientConfig through a RunnerFunc and alive together check that each has a socket directory of its own (announced in its environment, removed by its own Kill only); end-to-end cases launch a real serving plugin from a host that carries PLUGIN_* variables and require the configured mode to work.",
    design_ref="DESIGN.md section 3, C17",
    note="Effective environment computed as os/exec does (last duplicate wins); empty value = absent; host child's stdin is a distinctive regular file so that stdin pass-through is observable.",
    technique="runtime monitoring: environment capture at the runner boundary and in a real child, set-comparison oracle"),
@@ -61,13 +61,13 @@ CHECKS = {
    technique="runtime monitoring: bounded-progress oracle over fault histories with hook-controlled line-up, goroutine-dump leak monitor"),
  "C13": dict(
    category="exploration",
-   text="Runtime monitor: ~620 (quick) / ~6k (thorough) (file, hash function, checksum) triples incl. every single-bit flip and every proper prefix of the digest; the target is a script that writes a launch marker as its first action; the oracle computes the digest independently and requires launched <=> checksum == H(file) and the corresponding error; plus histories of 2-4 launches of one path through one shared SecureConfig value with the file atomically replaced in between, and command paths through directory symlinks with '..' and file symlinks (hashed file must be the executed file), and RunnerFunc clients with a SecureConfig (nothing may be launched).",
+   text="Runtime monitor: ~620 (quick) / ~6k (thorough) (file, hash function, checksum) triples incl. every single-bit flip and every proper prefix of the digest; the target is a script that writes a launch marker as its first action; the oracle computes the digest independently and requires launched <=> checksum == H(file) and the corresponding error; plus histories of 2-4 launches of one path through one shared SecureConfig value with the file atomically replaced in between, and command paths through directory symlinks with '..', file symlinks, relative paths and an argv[0] that names another file (hashed file must be the executed file), and RunnerFunc clients with a SecureConfig (nothing may be launched).",
    design_ref="DESIGN.md section 3, C13",
    note="Digest computed with Go's crypto packages in the driver; launch observed through the marker file and exec.Cmd.Process.",
    technique="runtime monitoring: launch-marker oracle against an independently computed digest, exhaustive single-bit/prefix sub-spaces"),
  "C04": dict(
    category="exploration",
-   text="Runtime monitor: real plugin subprocesses in nine shutdown behaviours (exit at once / after 200-1000 ms cleanup / after 1.2 s cleanup with a call that ignores cancellation in flight / never / busy / SIGSTOPped with state T awaited / already dead / failed handshake) x three protocols x three launch methods x four call patterns (single, sequential, concurrent Kill, CleanupClients over mixed managed clients in a host process of their own, some of which had Kill called before their Start); after each Kill call returns the monitor reads /proc/<pid>/stat, Exited() and a cleanup-marker file written by the plugin after its cleanup; race detector on both processes.",
+   text="Runtime monitor: real plugin subprocesses in nine shutdown behaviours (exit at once / after 200-1000 ms cleanup / after 1.2 s cleanup with a call that ignores cancellation in flight / never / busy / SIGSTOPped with state T awaited / already dead / failed handshake) x three protocols x four launch methods (incl. a custom runner whose Kill honours its context) x four call patterns (single, sequential, concurrent Kill, CleanupClients over mixed managed clients in a host process of their own, some of which had Kill called before their Start); after each Kill call returns the monitor reads /proc/<pid>/stat, Exited() and a cleanup-marker file written by the plugin after its cleanup; race detector on both processes.",
    design_ref="DESIGN.md section 3, C04",
    note="Bounded-time reading: Kill counts as hung after H=max(4N,N+15s); frozen net/rpc and mux plugins (bounded only by the 30+10 s yamux keep-alive) run in the thorough tier only; the not-force-killed clause is judged for non-concurrent patterns.",
    technique="runtime monitoring: /proc + cleanup-marker oracle over real subprocess shutdown behaviours, race detector"),
@@ -79,7 +79,7 @@ CHECKS = {
    technique="runtime monitoring: version-tag echo + raw handshake line capture, set-arithmetic oracle (exhaustive in thorough)"),
  "C03": dict(
    category="fault_enumeration",
-   text="Fault enumeration by runtime monitor: named crash points (hook points inside go-plugin armed to SIGKILL / os.Exit, points in the scripted plugin, external SIGKILL while idle and at seeded instants under traffic, plugins that printed more lines with the handshake line and later exit by themselves, a host-side hook point that kills the plugin while a broker message sits between the host's stream goroutine and the wire) x three protocols x the host operation in flight, on real subprocesses; every in-flight and subsequent host call is recorded at the API boundary and must return within the hang threshold, with an error where it needed the plugin; Exited() and the gRPC client context are polled as bounded progress after the observed death; the host child must survive.",
+   text="Fault enumeration by runtime monitor: named crash points (hook points inside go-plugin armed to SIGKILL / os.Exit, points in the scripted plugin, external SIGKILL while idle and at seeded instants under traffic, plugins that printed more lines with the handshake line and later exit by themselves, a host-side hook point that kills the plugin while a broker message sits between the host's stream goroutine and the wire, a SyncStdout pipe that the host drains only after Kill returned) x three protocols x the host operation in flight, on real subprocesses; every in-flight and subsequent host call is recorded at the API boundary and must return within the hang threshold, with an error where it needed the plugin; Exited() and the gRPC client context are polled as bounded progress after the observed death; the host child must survive.",
    design_ref="DESIGN.md section 3, C03",
    note="Nominal bounds <= 6 s, hang threshold 24 s; a crash point that is never reached makes the case inconclusive.",
    technique="runtime monitoring: crash-point injection via hook points and signals, call/return log judged against a needs-the-plugin table"),
@@ -115,13 +115,13 @@ CHECKS = {
    technique="runtime monitoring: reference state machine + porcupine register linearizability over recorded histories"),
  "C18": dict(
    category="exploration",
-   text="Runtime monitor: seeded histories of dispenses / brokered connections in both directions / stdio / a brokered listener the plugin keeps open, followed by Kill (optionally racing with listener announcements), plus in-process test-mode servers cancelled after no / one host used them, over protocol x TLS x launch method, real subprocesses with private sandboxes on both sides; after a graceful exit (cleanup marker present) the monitor lists both sandboxes for socket files and plugin-dir* directories and compares a goroutine dump of the host (filtered on go-plugin frames) with the count before the case, polling up to 10 s.",
+   text="Runtime monitor: seeded histories of dispenses / brokered connections in both directions / stdio / a brokered listener the plugin keeps open / plugin code announcing brokered servers from a background worker across the shutdown, followed by Kill (optionally racing with listener announcements), plus in-process test-mode servers cancelled after no / one host used them, over protocol x TLS x launch method, real subprocesses with private sandboxes on both sides; after a graceful exit (cleanup marker present) the monitor lists both sandboxes for socket files and plugin-dir* directories and compares a goroutine dump of the host (filtered on go-plugin frames) with the count before the case, polling up to 10 s.",
    design_ref="DESIGN.md section 3, C18",
    note="One case at a time per host process so that goroutines are attributable; only graceful exits are judged.",
    technique="runtime monitoring: file-system listing + goroutine-dump leak monitor after graceful shutdown"),
  "C20": dict(
    category="exploration",
-   text="Sanitizer + runtime monitor: concurrent rounds (4/16/64 goroutines) over in-process MuxBroker / GRPCBroker / multiplexed pairs and over one real Client with a race-built plugin process serving several dispensed implementations and brokered connections; a third of the rounds race Close / server Stop / concurrent Kill with in-flight operations; managed clients are created while CleanupClients runs; every other client round uses AutoMTLS against a plugin logging to stderr from process start; seeded jitter at every hook point. The Go race detector runs in both processes (reports attributed to go-plugin by accessing frame and de-duplicated by function pair), host deaths, recovered panics and plugin-side panic lines are violations, and the multiset of NextId results must be duplicate-free.",
+   text="Sanitizer + runtime monitor: concurrent rounds (4/16/64 goroutines) over in-process MuxBroker / GRPCBroker / multiplexed pairs and over one real Client with a race-built plugin process serving several dispensed implementations and brokered connections; a third of the rounds race Close / server Stop / concurrent Kill with in-flight operations; managed clients are created while CleanupClients runs; every other client round uses AutoMTLS against a plugin logging to stderr from process start, the others have a second host reattached to the same plugin while the operations make it write to stdout/stderr; seeded jitter at every hook point. The Go race detector runs in both processes (reports attributed to go-plugin by accessing frame and de-duplicated by function pair), host deaths, recovered panics and plugin-side panic lines are violations, and the multiset of NextId results must be duplicate-free.",
    design_ref="DESIGN.md section 3, C20",
    note="A clean race-detector run covers only the accesses and schedules this workload produced (bounded per-location history).",
    technique="sanitizer: Go race detector on host and plugin under a concurrent stress workload, plus panic and NextId-uniqueness monitors"),
